@@ -147,6 +147,9 @@ class C08(CompSpec):
                 "filelock": rng.choice(["", "", "legacy"]),
                 "hashseed": rng.choice([0, 1]),
             }
+            if i % 5 == 4:
+                # slow-holder slice: the k-th critical point reached inside a results-lock hold stalls for longer than the lock timeout
+                scen["slow_holder"] = rng.randint(1, 14)
             out.append({"fn": "sim", "args": {"scen": scen, "seed": s, "id": i, "cls": "comp.c08:S8", "prepare": "comp.c08:prepare", "trace_n": 150}})
         # free-running histories: real parallel processes, no scheduler (what the serialized model treats as atomic)
         nfree = {"quick": 14, "thorough": 280}[tier]
@@ -185,6 +188,11 @@ class C08(CompSpec):
             "context_switches": total(ok, "switches"),
             "history_events": total(ok, "history_events"),
             "policies": hist(t["args"]["scen"]["policy"]["kind"] for t in tasks if t["fn"] == "sim"),
+            "slow_holder_histories": sum(1 for t in tasks if t["fn"] == "sim" and t["args"]["scen"].get("slow_holder")),
+            "slow_holder_histories_with_a_stall_beyond_the_lock_timeout": sum(1 for r in ok if r.get("slow_holder_stalled")),
+            "slow_holder_stall_sites": hist(r.get("slow_holder_at") for r in ok if r.get("slow_holder_stalled")),
+            "appends_that_failed_loudly_with_a_lock_timeout": total(ok, "loud_appends"),
+            "collections_that_failed_loudly_with_a_lock_timeout": total(ok, "loud_collections"),
             "free_running_histories": sum(r.get("cases") or 0 for r in ok if r.get("free_running")),
             "free_running_rows": sum(r.get("rows") or 0 for r in ok if r.get("free_running")),
             "free_running_collections": sum(r.get("collections") or 0 for r in ok if r.get("free_running")),
